@@ -19,7 +19,7 @@ EXPLANATION = (
 ASSUMPTIONS = [
     "meta-step: generalisation of the L1 step proofs from lengths below two rate blocks to every length (the loops that write output cannot carry CBMC loop contracts, DESIGN 2.9; the absorb loops are also covered by this route only)",
     "function names longer than 40 characters are outside the bound of the init_custom groups (the strlen model is unwound)",
-    "summary faces of the L1 contracts: determinism only (DESIGN 3.2); x86-64 assembly permutation assumed to satisfy the C08 contract",
+    "summary faces of the L1 contracts: determinism only (DESIGN 3.2); x86-64 assembly permutation: satisfies the C08 contract through the instruction lifter (see C08)",
 ]
 
 
